@@ -20,6 +20,7 @@ META = {
     'assumptions': ['sleep-queue enq/deq are linearizable under their ilock (lock pairing checked in C04.5)',
                     'x86-64 inline-context configuration as built'],
 }
+META['explanation'] += ' The empty result of the dequeue never leads back to the dequeue (broadcast terminates, C05.3).'
 
 NATIVE = 'myth_if_native.c'
 ENQ = ('myth_sleep_queue_enq', 'myth_sleep_stack_push')
